@@ -1169,7 +1169,7 @@ class Machine:
         if 'ByteLines' in callee and callee.endswith('::next'):
             self.stats['lines_next'] += 1
             self.end_of_line(g, memo)
-            g = g._replace(S0=(g.S if self.color_only else 0), CL=0, NL=0, DEF=0, WL=0, OM=0, HW=0, DW=0, RO=1)
+            g = g._replace(S0=(g.S if self.color_only else 0), CL=0, NL=0, DEF=0, WL=0, OM=0, HW=0, DW=0, RO=1, FH=min(g.FH, 1))
             src = None
             if len(self.stack) == 1:
                 # the per-line counters have just been reset: a line-start state already explored need not be explored again
@@ -1459,7 +1459,7 @@ class Machine:
                 # guard is a comparison of names, which this analysis does not track
                 self.violate('HDR-TWICE', path, 'a second file header is written for one file section (the header is composed again although one has already been '
                              'written since the section started)', g, self.F.span_of_call(c), callee, facet='composed')
-            g = g._replace(FH=1 if g.SRC == self.SRCV.get('GitDiff') else 0)
+            g = g._replace(FH=2 if g.SRC == self.SRCV.get('GitDiff') else 0)   # 2: composed while handling the current line
             self.composer_depth += 1
             try:
                 outs = self._descend2(path, c, callee, av, g, memo)
@@ -1629,7 +1629,7 @@ class Machine:
                         g = g._replace(NL=max(g.NL - 1, 0)) if self.color_only else g
                     return [(ret, g, memo)]
             if last == 'mode_info' and callee.endswith(('::truncate', '::clear')):
-                if g.HP and self.composer_depth == 0 and not self.color_only and not self.passthrough:
+                if g.HP and self.composer_depth == 0 and g.FH != 2 and not self.color_only and not self.passthrough:
                     # a pending mode-change header is written on its own (not as part of the composed file header)
                     self.events['HDR_PENDING'] += 1
                     if g.FH and g.SRC == self.SRCV.get('GitDiff'):
